@@ -25,6 +25,7 @@
 #include "EbPictureDecisionProcess.h"
 #include "firstpass.h"
 #include "EbPictureAnalysisProcess.h"
+#include "EbVerifHooks.h"
 
 #define FC_SKIP_TX_SR_TH025 125 // Fast cost skip tx search threshold.
 #define FC_SKIP_TX_SR_TH010 110 // Fast cost skip tx search threshold.
@@ -4402,6 +4403,11 @@ void *mode_decision_kernel(void *input_ptr) {
                                        &segment_index,
                                        enc_dec_tasks_ptr,
                                        context_ptr->enc_dec_feedback_fifo_ptr) == EB_TRUE) {
+            SVT_VERIF_TRACE(SVT_VERIF_EV_SEG_START,
+                            segments_ptr,
+                            segment_index,
+                            pcs_ptr->picture_number,
+                            context_ptr->tile_group_index);
             x_sb_start_index = segments_ptr->x_start_array[segment_index];
             y_sb_start_index = segments_ptr->y_start_array[segment_index];
             sb_start_index = y_sb_start_index * tile_group_width_in_sb + x_sb_start_index;
@@ -4451,6 +4457,13 @@ void *mode_decision_kernel(void *input_ptr) {
                     sb_ptr = context_ptr->md_context->sb_ptr = pcs_ptr->sb_ptr_array[sb_index];
                     sb_origin_x = (x_sb_index + tile_group_x_sb_start) << sb_size_log2;
                     sb_origin_y = (y_sb_index + tile_group_y_sb_start) << sb_size_log2;
+                    SVT_VERIF_TRACE(SVT_VERIF_EV_SEG_SB,
+                                    segments_ptr,
+                                    segment_index,
+                                    (uint64_t)x_sb_index | ((uint64_t)y_sb_index << 16) |
+                                        ((uint64_t)(x_sb_index + tile_group_x_sb_start) << 32) |
+                                        ((uint64_t)(y_sb_index + tile_group_y_sb_start) << 48),
+                                    pcs_ptr->picture_number);
                     //printf("[%ld]:ED sb index %d, (%d, %d), encoded total sb count %d, ctx coded sb count %d\n",
                     //        pcs_ptr->picture_number,
                     //        sb_index, sb_origin_x, sb_origin_y,
@@ -4682,6 +4695,11 @@ void *mode_decision_kernel(void *input_ptr) {
                 }
                 x_sb_start_index = (x_sb_start_index > 0) ? x_sb_start_index - 1 : 0;
             }
+            SVT_VERIF_TRACE(SVT_VERIF_EV_SEG_DONE,
+                            segments_ptr,
+                            segment_index,
+                            pcs_ptr->picture_number,
+                            context_ptr->tile_group_index);
         }
 
         svt_block_on_mutex(pcs_ptr->intra_mutex);
